@@ -8,6 +8,7 @@ import (
 	"testing"
 
 	"github.com/jamf/regatta/regattapb"
+	"github.com/jamf/regatta/storage/table"
 	"github.com/jamf/regatta/storage/table/fsm"
 	"github.com/jamf/regatta/util/iter"
 	"pgregory.net/rapid"
@@ -173,6 +174,11 @@ func genCase(t *rapid.T) Case {
 	return c
 }
 
+// maxValue: the largest value the table layer accepts (2 MiB on the pinned tree).  Taken from the code, not restated, so that "pairs near
+// the value limit" stay near the limit the server really enforces (seeded change C09-J raises it: a single pair then reaches the size at
+// which a response chunk is closed).
+var maxValue = table.MaxValueLen
+
 // genLarge: few pairs with values of 0.5-2 MiB so that the ~4 MiB size cut triggers, including on the last pair.
 func genLarge(t *rapid.T) Case {
 	pool := gen.NewPool(t, 2, 4, 64)
@@ -185,11 +191,11 @@ func genLarge(t *rapid.T) Case {
 		case 0:
 			v = Val{B: []byte("small")}
 		case 1:
-			v = Val{N: 2 * 1024 * 1024, F: 'x'} // exactly the maximum value size
+			v = Val{N: maxValue, F: 'x'} // exactly the maximum value size
 		case 2:
-			v = Val{N: 2*1024*1024 - rapid.IntRange(0, 2048).Draw(t, "content.near"), F: 'y'}
+			v = Val{N: maxValue - rapid.IntRange(0, 2048).Draw(t, "content.near"), F: 'y'}
 		default:
-			v = Val{N: rapid.IntRange(512*1024, 2*1024*1024).Draw(t, "content.len"), F: 'z'}
+			v = Val{N: rapid.IntRange(maxValue/4, maxValue).Draw(t, "content.len"), F: 'z'}
 		}
 		c.Content = append(c.Content, KV{K: k, V: v})
 	}
